@@ -69,9 +69,25 @@ CHECKS = {
    note="a failing store callback leaves the store unchanged; cache observed through the overlay hook VerifCachePeek in inspect mode (no schedule point)"),
  "C16": dict(engine="S", tech=S+" with enumerated I/O faults", ref="DESIGN.md §3 C16",
    text="All interleavings (preemption bound 2-3 quick / 3-4 thorough for one session, 1 with a free-choice bound for two sessions and the accept loop; every select resolution) of the two session goroutines with local Send/Close, a writing/closing peer, a read handler that may panic and explorer-chosen injected read/write errors and timeouts (budget 1 quick / 2 thorough) over a fake net.Conn built from scheduler-visible channels; the accept loop over a fake listener with 1-3 connections and maximum 1-2: exit callback exactly once, connection closed, both goroutines finished, count back to zero / never negative / never above the maximum at any scheduling decision, surplus connections closed, bytes accepted before a local Close delivered completely and in order.",
-   note="kernel TCP replaced by a fake net.Conn (Read blocks on a channel, Close wakes it, deadlines are no-ops, timeouts injected); accept loop entered through the overlay hook VerifLoopAccept"),
+   note="kernel TCP replaced by a fake net.Conn (Read blocks on a channel, Close wakes it; in the untimed scenarios deadlines are no-ops and timeouts are injected choices, in the timed ones deadlines are honoured on a virtual clock and time.Now in stcp/sess.go is redirected to it); accept loop entered through the overlay hook VerifLoopAccept"),
 }
 NA = {}
+# clauses added when seeded changes showed a gap (appended to the level text)
+EXTRA = {
+ "C01": " Fine-mode variants (schedule points at every statement boundary of the semaphore code). Constructor family: all ordered pairs of the three constructors x ratio default/1/2/12, each container's observed reader bound checked after the other was built (options must not leak between containers).",
+ "C02": " Many-holder programs (counter width), 13- and 21-key multi-key lists with several keys per shard against short lists on the same shards, fine-mode variants.",
+ "C04": " Removed/evicted results held by the caller stay part of the state key; Keys/Items results are re-read after later calls (aliasing); an object handed back by the cache is resized and set again.",
+ "C05": " Sets from one caller-owned slice that is reused and read back after every step (aliasing); specs run one per worker process, depth 6 quick / 8 thorough (redis facade 7/9).",
+ "C06": " Start timestamps near the top of the timestamp width.",
+ "C09": " Alias probes (decoded sets must not share memory with the input), all 3-byte strings.",
+ "C12": " Extreme priorities (min/max int) in the priority queue.",
+ "C13": " Fine-mode variants (schedule points at every statement boundary of the queue code).",
+ "C14": " Stop before Run; one CallCtx object reused on a 2-lane and a 3-lane MultiLine (lane = IndexOf(hash) of the executor it was given to).",
+ "C15": " An LRU configuration in which every second value (cache.Value, Size 3) is bigger than the whole LRU.",
+ "C16": " Injected Close / SetReadDeadline / SetWriteDeadline errors; Send and Close issued before Start; timed scenarios: a connection that honours read/write deadlines on a virtual discrete-event clock (silent peer, peer that does not read, heartbeats while a write is pending): a pending read/write expires at the deadline its own loop armed.",
+ "C18": " Special error values (gorm.ErrInvalidTransaction, sql.ErrTxDone, driver.ErrBadConn, context errors) as step results.",
+ "C19": " Long single-pair attempt histories up to the attempt/send limits + 2.",
+}
 
 def main():
     checks = []
@@ -85,7 +101,7 @@ def main():
             "evidence_file": f"/verif/evidence/{i}.json",
             "replay_cmd_template": f"bin/check {i} --replay {{path}}",
             "engine": c["engine"],
-            "level_claimed": {"category": "model_checking", "text": c["text"], "design_ref": c["ref"]},
+            "level_claimed": {"category": "model_checking", "text": c["text"] + EXTRA.get(i, ""), "design_ref": c["ref"]},
             "level_note": c["note"],
             "technique": c["tech"],
         })
@@ -94,7 +110,7 @@ def main():
         "version": 1,
         "setup_cmd": "bin/setup",
         "hooks": {
-            "guard": "verif (Go build tag). /repo carries no hook commits: hook files live in /verif/engine/hooks/<pkg>/ with //go:build verif and are added to the packages by go build -overlay, as are the scheduler shim packages zverif/vsync and zverif/vatomic",
+            "guard": "verif (Go build tag). /repo carries no hook commits: hook files live in /verif/engine/hooks/<pkg>/ with //go:build verif and are added to the packages by go build -overlay, as are the scheduler shim packages zverif/vsync and zverif/vatomic and the clock seam zverif/vtime (time.Now/Since/Sleep redirected in the files listed in engine/time_redirect.txt)",
             "enable": "go build -tags verif -overlay <generated by .build/instr from /repo's current tree> (bin/check does this on every run)",
             "baseline_off_cmd": "cd /repo && GOFLAGS=-mod=mod go test -json -vet=off -count=1 -timeout 25m ./...",
             "source_commits": [],
